@@ -4,13 +4,17 @@ package main
 
 import (
 	"bytes"
+	"context"
 	"encoding/binary"
+	"errors"
+	"time"
 	"fmt"
 	"net"
 	"strings"
 
 	"github.com/cenkalti/rain/v2/internal/blocklist"
 	"github.com/cenkalti/rain/v2/internal/blocklist/stree"
+	"github.com/cenkalti/rain/v2/internal/resolver"
 )
 
 // Suite blocklist (C18): the real blocklist.Reload / Blocked / Len and the real segment tree.
@@ -21,6 +25,9 @@ import (
 //   blocked ips=<u32,...>           obs: one 0/1 per address
 //   blockedv6                       obs: 0/1 for 2001:db8::1 (no IPv4 form)
 //   len                             obs: <n>
+//   resolve hosts=<u32|L,...>       obs: per host 1 = refused as blocked, 0 = resolved, e = other error
+//        (resolver.Resolve, what trackers and web seeds go through; a number is a literal IPv4 host, L is the
+//        host name "localhost", resolved from the hosts file to 127.0.0.1)
 //   stree ranges=<lo>-<hi>,... q=<u32,...>   obs: one 0/1 per query (fresh stree.Stree: AddRange*, Build, Contains)
 
 func init() {
@@ -74,6 +81,27 @@ func execBlocklist(ops []string) []string {
 			obs = append(obs, b01(bl.Blocked(net.ParseIP("2001:db8::1"))))
 		case "len":
 			obs = append(obs, fmt.Sprint(bl.Len()))
+		case "resolve":
+			var sb strings.Builder
+			for _, h := range commaList(m["hosts"]) {
+				host := "localhost"
+				if h != "L" {
+					host = u32ip(uint32(atou(h))).String()
+				}
+				_, _, err := resolver.Resolve(context.Background(), net.JoinHostPort(host, "6881"), 2*time.Second, bl)
+				switch {
+				case err == nil:
+					sb.WriteString("0")
+				case errors.Is(err, resolver.ErrBlocked):
+					sb.WriteString("1")
+				default:
+					sb.WriteString("e")
+				}
+			}
+			if sb.Len() == 0 {
+				sb.WriteString("-")
+			}
+			obs = append(obs, sb.String())
 		case "stree":
 			var t stree.Stree
 			for _, r := range commaList(m["ranges"]) {
@@ -286,7 +314,7 @@ func genBlocklist(r *Rng, n int, tier string) []Case {
 	recS(nil)
 	// (3) generated blocklist histories: several reloads, queries at every endpoint and neighbour.
 	for i := 0; i < n; i++ {
-		base := uint32(r.PickU(0x0A000000, 0x0A0000F0, 0, 0xFFFFFFC0, 0x7FFFFFE0, 0xC0A80100))
+		base := uint32(r.PickU(0x0A000000, 0x0A0000F0, 0, 0xFFFFFFC0, 0x7FFFFFE0, 0xC0A80100, 0x7F000000, 0x7F000000))
 		window := uint32(r.Pick(8, 16, 64))
 		var ops []string
 		var all []blRule
@@ -302,6 +330,10 @@ func genBlocklist(r *Rng, n int, tier string) []Case {
 			ops = append(ops, "blocked ips="+blQueries(r, all, base, window, 6))
 			if r.Chance(50) {
 				ops = append(ops, "len")
+			}
+			if r.Chance(40) {
+				// the same questions through resolver.Resolve, by literal address and by host name
+				ops = append(ops, "resolve hosts=L,"+blQueries(r, all, base, window, 3)+",L")
 			}
 			if r.Chance(10) {
 				ops = append(ops, "blockedv6")
